@@ -101,12 +101,15 @@ package openapi3
 
 //@ func (*Paths).Len
 //@   modifies nothing
+//@   ensures [length] result == (paths == nil ? 0 : len(paths.m))
 //@   option safety-tags C20
 //@   tag C04
+//@ spec pathOf(paths *Paths, key string) *PathItem := paths == nil ? nil : paths.m[key]
 //@ func (*Paths).Value
 //@   modifies nothing
+//@   ensures [lookup] result == pathOf(paths, key)
 //@   option safety-tags C20
-//@   tag C04
+//@   tag C04 C09
 //@ func (*Paths).Set
 //@   requires paths != nil
 //@   modifies paths.m, map[string]*PathItem
